@@ -395,4 +395,13 @@ def r7_trap_memory_survives(ctx):
     ctx.floor(n, 2)
 
 
-RULES = [r7_trap_memory_survives, r6_clusters_land_in_their_pixel, r1_ipc_weights, r2_conservation, r3_no_lost_update, r4_simple_laws, r5_clamps_and_siblings]
+def r8_collected_charge_is_current(ctx):
+    """"Simple collection adds exactly the generated charge": it reads charge.array, which must reflect the cluster table as it is NOW - converted whenever clusters are present, never memoised across in-place edits of the table (shared with C14.R3 and the getter-observation part of C03.R6)."""
+    from props.C14 import r3_representation_switch
+    from props.C03 import r6_debug_observation_only
+
+    r3_representation_switch(ctx)
+    r6_debug_observation_only(ctx)
+
+
+RULES = [r8_collected_charge_is_current, r7_trap_memory_survives, r6_clusters_land_in_their_pixel, r1_ipc_weights, r2_conservation, r3_no_lost_update, r4_simple_laws, r5_clamps_and_siblings]
